@@ -289,8 +289,26 @@ def op_py_import(self, rec):
 
 World.op_py_import = op_py_import
 
+
+def op_np_seterr(self, rec):
+    """The application changes its numpy floating-point error state (process-wide for the application; library calls
+    run under it).  state None / {}: back to numpy's default."""
+    state = rec.get("state")
+    if not state:
+        self.caller_err = None
+    else:
+        old = np.seterr(**state)
+        self.caller_err = dict(np.geterr())
+        np.seterr(**old)
+    self.faults["caller.errstate"] += 1
+    return "ok:-"
+
+
+World.op_np_seterr = op_np_seterr
+
 SHARED_OPS = {
     "py.import": World.op_py_import,
+    "np.seterr": World.op_np_seterr,
     "np.perturb": World.op_np_perturb,
     "py.random": World.op_py_random,
     "entropy.draw": World.op_entropy_draw,
